@@ -52,6 +52,8 @@
      C05_grid_algorithm_shape            the traffic: ComputeSize queries to in-flow children only; PerformLayout queries / stored layouts
                                          only on children that are not display:none; on a display:none child only the CANONICAL hidden
                                          query, its answer ignored, followed by Layout::with_order(n)
+     C05_grid_model_loops_are_source     the tests of the model's final loop ARE the conditions of the source's (translated on every run); the
+                                         translator checked the hidden branch (canonical pair) and the node-addressing tree calls of the grid sources
      C05_grid_sizing_guard_never_fires   the sizing phase (steps 1-7) addresses in-flow children only: the guard of Model/GridAlg.v `run` is
                                          redundant
      C05_grid_algorithm_hidden_blind     HiddenBlind HOLDS for it (no longer a premise for grid containers)
@@ -553,6 +555,16 @@ Theorem C05_grid_sizing_guard_never_fires :
             (m_size_grid s (grid_pre s i) i (mkSS cols0 rows0 zero zero items0)).
 Proof. intros T N s st i ec er m placed cc rc cols rows items0. apply grid_sizing_guard_never_fires. Qed.
 
+(* the tests of the model's final loop are the conditions found in the source (translated on every run), and the translator checked the
+   branches: the hidden branch is the canonical pair, the absolute branch one align_and_position_item on the child; the node-addressing
+   calls of the grid sources on `tree` are exactly the sites the resumption models *)
+Theorem C05_grid_model_loops_are_source :
+  forall (T : Type) (N : Num T) (s : GStyle T),
+    oof_view s = (if grid_final_loop_hidden_test g_position g_bgm s then OHidden
+                  else if grid_final_loop_absolute_test g_position g_bgm s then OAbs s else OSkip) /\
+    grid_hidden_branch_is_canonical = true /\ grid_absolute_branch_is_local = true /\ grid_tree_calls_address_item_only = true.
+Proof. intros T N s. apply grid_loops_are_generated. Qed.
+
 Theorem C05_grid_algorithm_hidden_blind :
   forall (T : Type) (N : Num T),
     HiddenBlind (GStyle T) (GIn T) (LayoutOutput T) (GLay T) g_is_none grid_alg /\
@@ -678,6 +690,7 @@ Print Assumptions C01_flex_algorithm_NS_partial.
 Print Assumptions C01_flex_algorithm_NS_refuted.
 Print Assumptions C05_grid_algorithm_shape.
 Print Assumptions C05_grid_sizing_guard_never_fires.
+Print Assumptions C05_grid_model_loops_are_source.
 Print Assumptions C05_grid_algorithm_hidden_blind.
 Print Assumptions C05_grid_algorithm_sets_zero_on_hidden.
 Print Assumptions C05_grid_engine_hidden_invisible.
